@@ -254,6 +254,8 @@ def Pc.isPlain : Pc → Bool
 inductive SrcOp where
   | loadTail | loadHead | loadSeq | casTail | casHead | storeSeqPlus1 | storeSeqPlusMask
   | writeVal | readVal | clearVal
+  /-- a PLAIN (non-atomic) read of `r.head` / `r.tail` (the source has none) -/
+  | plainHead | plainTail
   | other (s : String)
 deriving DecidableEq, Repr
 
